@@ -1,5 +1,17 @@
-(* C16 / C17 / C18 for the CBOR parser model: how the parser treats its
-   visitor, what state it is in after a complete value, and the pull decoder. *)
+(* C16 / C17 / C18 for the CBOR parser model (Cbor/Parse.v).
+   Part 0/1 (C16): every parser function is the interpretation of a straight-line
+     "visitor program": it returns at the first failing visitor call with that
+     call's error.  Consequences for run_chunks / run_parse / dec_next.
+   Part 2 (C17): an invariant relating the state stack and the length stack; a
+     run that ends with a nil verdict leaves the parser in its initial state.
+   Part 3 (C18): the pull decoder.  Next depends only on the bytes still to
+     come (script independence), never panics, and delivers exactly one item of
+     the reference decoder per call, then io.EOF.
+   Parts 0-2 and the first section of part 3 need only Prelude/Events/Parse;
+   the rest of part 3 uses Cbor/ChunkProofs.v (exec_dich), Cbor/ParseSafety.v
+   (feed_until_ok), Cbor/ConformanceProofs.v (value_ok, reject_ok),
+   Cbor/ComposeProofs.v (feed_until_top_value) and Core/AdapterProofs.v
+   (stream_tree_flatten): place this file after Cbor/ComposeProofs.v. *)
 From Coq Require Import Setoid List NArith ZArith Bool Lia.
 From Coq Require Import ZifyBool ZifyNat ZifyN.
 From SF Require Import Base.Prelude Core.Events Cbor.Parse.
@@ -2527,3 +2539,57 @@ Proof.
   exists ts. split; [exact A|]. split; [exact B|]. rewrite Hl, C. reflexivity.
 Qed.
 Print Assumptions C18_cbor_bytes_stream.
+
+(* ---------- further consequences ---------- *)
+
+(* io.EOF is reported exactly when no byte is left (decoder between two values) *)
+Corollary C18_cbor_next_eof_partial : forall fuel d s d' s' e,
+  d_p d = cparser0 -> script_okb (d_script d) = true ->
+  all_bytes (rem d) = true -> zlen (rem d) <= CF.MaxInt64 -> s_fail s = None ->
+  dec_next fuel d s = Ok (d', s', e) ->
+  (e = eEOF <-> rem d = []).
+Proof.
+  intros fuel d s d' s' e Hp Hsc Hb Hsz Hs H.
+  pose proof (C18_cbor_next_one_value_partial _ _ _ _ _ _ Hp Hsc Hb Hsz Hs H) as K.
+  destruct (rem d) as [|x r].
+  - destruct K as [-> _]. split; reflexivity.
+  - split; [|discriminate]. intros ->.
+    destruct (Spec.cbor_decode (x :: r)) as [v rest| | |]; destruct K as [K1 K2]; try discriminate; congruence.
+Qed.
+Print Assumptions C18_cbor_next_eof_partial.
+
+(* a successful Next has consumed at least one byte - for every visitor (also a
+   failing one) and every reachable parser state *)
+Theorem C18_cbor_next_progress_partial : forall fuel d s d' s',
+  CInv (d_p d) -> SInv (d_p d) -> ParseSafety.rank (d_p d) = 0%nat ->
+  script_okb (d_script d) = true -> all_bytes (rem d) = true ->
+  dec_next fuel d s = Ok (d', s', nilE) ->
+  (length (rem d') < length (rem d))%nat.
+Proof.
+  intros fuel d s d' s' HI HS Hr Hsc Hb H.
+  destruct (dec_next_sound _ _ _ _ _ _ HI Hsc H) as (r & N & S & _).
+  destruct r as [[[pa sa] ra] ea]. cbn [simW] in S. destruct S as (-> & -> & S).
+  destruct (S eq_refl) as (-> & ->).
+  inversion N; subst; try congruence.
+  - exfalso. eapply finE_not_nil; eauto.
+  - assert (HW : rem d <> []) by assumption.
+    destruct (ParseSafety.feed_until_ok (feed_fuel (rem d)) (d_p d) s (rem d) HS Hb (or_introl HW))
+      as (p1 & s1 & rest & dd & e & Hf & _ & _ & Hpost).
+    { unfold feed_fuel. rewrite Hr. lia. }
+    apply feed_until_RU in Hf.
+    match goal with HR : RU _ _ _ (_, _, _, true, nilE) |- _ => pose proof (RU_det _ _ _ _ HR _ Hf) as E end.
+    inversion E; subst. destruct (Hpost eq_refl) as (_ & _ & Hlt). exact (Hlt Hr).
+  - exfalso. eapply finE_not_nil; eauto.
+Qed.
+Print Assumptions C18_cbor_next_progress_partial.
+
+(* the core lemma of C16 in elementary form: within one parser step, nothing is
+   delivered after the visitor's first error, and that error is returned *)
+Theorem C16_cbor_step_core : forall p s b k p' s' rest d e,
+  s_fail s = Some k -> (s_n s <= k)%nat -> exec_step p s b = SR p' s' rest d e ->
+  exists l, s' = s_add s l /\ (s_n s' <= S k)%nat /\ (s_n s' = S k -> e = eVisitor).
+Proof.
+  intros p s b k p' s' rest d e Hs Hn H.
+  apply (rep_prompt_gen _ _ (exec_step_rep p b) s k (p', rest, d) s' e Hs Hn). rewrite H. reflexivity.
+Qed.
+Print Assumptions C16_cbor_step_core.
